@@ -117,6 +117,10 @@ def def_flags(d):
     return ["-D%s=%s" % (k, v) if v is not None else "-D%s" % k for k, v in d.items()]
 
 
+def harness_path(job):
+    return job.harness if job.harness.startswith("/") else os.path.join(VERIF, "harness", job.harness)
+
+
 def src_path(s):
     if s.startswith("/"):
         return s
@@ -142,7 +146,7 @@ def run_job(prop, job, tier, verbose=False, loopless=False):
         prelude = ["-include", os.path.join(VERIF, "harness", "ring_prelude.h")]
     a = os.path.join(wd, "a.gb")
     cmd = ["goto-cc"] + def_flags(defs) + incl_flags() + prelude + ["--function", job.entry,
-           os.path.join(VERIF, "harness", job.harness)] + [src_path(s) for s in job.srcs] + \
+           harness_path(job)] + [src_path(s) for s in job.srcs] + \
           [os.path.join(VERIF, "stubs", "stdio_stub.c")] + ["-o", a]
     res["cmds"].append(" ".join(cmd))
     rc, out, _ = sh(cmd, cwd=wd, timeout=300)
@@ -255,6 +259,8 @@ def run_job(prop, job, tier, verbose=False, loopless=False):
                 samples.append("%s: %s" % (name, desc[:100]))
         else:
             loc = r.get("sourceLocation", {})
+            if desc.startswith("C20 "):
+                name = desc.split(" :: ")[0]
             item = dict(obligation=name, description=desc, status=st,
                         location="%s:%s" % (loc.get("file", "?"), loc.get("line", "?")),
                         function=loc.get("function", "?"),
@@ -265,6 +271,9 @@ def run_job(prop, job, tier, verbose=False, loopless=False):
             else:
                 res["failed"].append(item)
     res["samples"] = samples
+    for item in getattr(job, "pre_failed", []):
+        res["obligations"] += 1
+        res["failed"].append(item)
     if any(r["status"] == "ERROR" for r in results):
         res["status"] = "error"; res["failed"] = []; res["infra_failed"] = []
         res["detail"] = "solver error (out of memory?): " + " | ".join(msgs)[-300:]
@@ -346,7 +355,7 @@ def loop_contracts_file(wd, gb, job):
         funcs.append({fn: entries})
     p = os.path.join(wd, "loops.json")
     with open(p, "w") as f:
-        json.dump({"sources": [os.path.join(VERIF, "harness", job.harness)], "functions": funcs, "output": "OUTPUT"}, f, indent=1)
+        json.dump({"sources": [harness_path(job)], "functions": funcs, "output": "OUTPUT"}, f, indent=1)
     return p, None
 
 
@@ -424,7 +433,7 @@ def native_replay(prop, job, inputs, tag):
     if lib is None:
         return dict(outcome="replay-build-failed", output=err)
     srcs = job.native_srcs if job.native_srcs is not None else (job.srcs if job.mode == "ring" else [])
-    cmd = ["gcc"] + SAN + def_flags(defs) + incl_flags() + prelude + [os.path.join(VERIF, "harness", job.harness)] + \
+    cmd = ["gcc"] + SAN + def_flags(defs) + incl_flags() + prelude + [harness_path(job)] + \
           [src_path(s) for s in srcs] + [lib, "-o", exe] + NATIVE_LIBS
     rc, out, _ = sh(cmd, cwd=wd, timeout=300, mem_gb=64)
     if rc != 0:
